@@ -272,51 +272,69 @@ pub fn run_case(case: &Case, st: &mut Stats) -> CaseResult {
     let lin = VarOrder::new(&orders.first().cloned().unwrap_or_else(|| (0..n).collect()).iter().map(|v| VarLabel::new_usize(*v)).collect::<Vec<_>>());
     let std_b = StandardDecisionNNFBuilder::new(lin.clone());
     let sem_b = SemanticDecisionNNFBuilder::<{ primes::U64_LARGEST }>::new(lin);
+    let ssb = rsdd::builder::sdd::SemanticSddBuilder::<{ primes::U64_LARGEST }>::new(
+        vts.first().map(|v| v.to_vtree()).unwrap_or_else(|| rsdd::repr::VTree::new_leaf(VarLabel::new_usize(0))),
+    );
     rsdd::verif_hooks::set_unique_table_capacity(None);
 
     let mut reps: Vec<RepInfo> = Vec::new();
     for (i, b) in bbs.iter().enumerate() {
         let f = bdd_from_tt(b, t, n);
-        ensure!(bdd_tt(f) == t, "C07/harness-rep", "bdd_from_tt built the wrong function");
+        // counts are held to the function the diagram actually denotes (read by walking it): whether the
+        // builder produced the requested function is C01's concern
+        let ft = bdd_tt(f);
+        st.flag("rep_differs_from_requested_function(C01/C03/C06's concern)", ft != t);
         reps.push(RepInfo {
             name: format!("bdd(order {:?})", orders[i]),
             rep: Rep::B(f),
-            tt: t,
+            tt: ft,
             order: Some(orders[i].clone()),
         });
         reps.push(RepInfo {
             name: format!("negated bdd(order {:?})", orders[i]),
             rep: Rep::B(f.neg()),
-            tt: t.not(),
+            tt: ft.not(),
             order: Some(orders[i].clone()),
         });
     }
     for (i, b) in sbs.iter().enumerate() {
         let f = sdd_from_tt(b, t, n);
-        ensure!(sdd_tt(f) == t, "C07/harness-rep", "sdd_from_tt built the wrong function");
+        let ft = sdd_tt(f);
+        st.flag("rep_differs_from_requested_function(C01/C03/C06's concern)", ft != t);
         reps.push(RepInfo {
             name: format!("sdd(vtree {:?}{})", vts[i].shape(), if i == 1 && n <= 4 { ", uncompressed" } else { "" }),
             rep: Rep::S(f),
-            tt: t,
+            tt: ft,
             order: None,
         });
         reps.push(RepInfo {
             name: format!("negated sdd(vtree {:?})", vts[i].shape()),
             rep: Rep::S(f.neg()),
-            tt: t.not(),
+            tt: ft.not(),
             order: None,
         });
+    }
+    // an SDD from the hash-identified builder (64-bit field): complemented, untrimmed, uncompressed nodes
+    if let Some(v) = vts.first() {
+        let f = sdd_from_tt(&ssb, t, n);
+        let ft = sdd_tt(f);
+        st.flag("rep_differs_from_requested_function(C01/C03/C06's concern)", ft != t);
+        reps.push(RepInfo { name: format!("sdd(semantic builder, vtree {:?})", v.shape()), rep: Rep::S(f), tt: ft, order: None });
+        reps.push(RepInfo { name: "negated sdd(semantic builder)".into(), rep: Rep::S(f.neg()), tt: ft.not(), order: None });
+        st.bump("semantic_sdd_reps");
     }
     if let Some(c) = case.src.cnf() {
         let cnf = c.to_rsdd();
         let d1 = std_b.compile_cnf_topdown(&cnf);
         let d2 = sem_b.compile_cnf_topdown(&cnf);
-        // C06 decides whether these denote the CNF; here they are only counted when they do
-        if bdd_tt(d1) == t && bdd_tt(d2) == t {
-            reps.push(RepInfo { name: "top-down(standard)".into(), rep: Rep::B(d1), tt: t, order: None });
-            reps.push(RepInfo { name: "top-down(semantic)".into(), rep: Rep::B(d2), tt: t, order: None });
-            st.bump("topdown_reps");
+        // C06 decides whether these denote the CNF; here they are counted as what they denote
+        for (nm, d) in [("top-down(standard)", d1), ("top-down(semantic)", d2)] {
+            let dt = bdd_tt(d);
+            st.flag("rep_differs_from_requested_function(C01/C03/C06's concern)", dt != t);
+            reps.push(RepInfo { name: nm.into(), rep: Rep::B(d), tt: dt, order: None });
+            reps.push(RepInfo { name: format!("negated {}", nm), rep: Rep::B(d.neg()), tt: dt.not(), order: None });
         }
+        st.bump("topdown_reps");
     }
 
     // --- Boolean evaluation ------------------------------------------------
@@ -506,11 +524,31 @@ pub fn run_case(case: &Case, st: &mut Stats) -> CaseResult {
         for (i, x) in c.iter().enumerate() {
             p.coefficients[i] = RealSemiring(*x);
         }
-        p.len = 3;
+        p.len = c.iter().rposition(|x| *x != 0.0).map(|i| i + 1).unwrap_or(0).max(3);
         p
     };
     let from_poly = |p: Polynomial<RealSemiring>| -> Vec<f64> { p.coefficients.iter().map(|c| c.0).collect() };
     check_normalised("polynomial", &reps, n, &|v, b| to_poly(pw(v, b)), &pw, &pops, &from_poly)?;
+    // degree-5 weights: with n >= 7 variables the products pass degree 31 and are truncated at 32 coefficients
+    // (the reference multiplies modulo x^32)
+    let pw5 = |v: usize, b: bool| -> Vec<f64> {
+        let c0 = (wsel[v][1] % 3) as f64;
+        let c2 = (wsel[v][2] % 3) as f64 - 1.0;
+        let c5 = 1.0 + (wsel[v][3] % 2) as f64;
+        let mut o = vec![0.0; MAX_COEFFS];
+        if b {
+            o[0] = c0;
+            o[2] = c2;
+            o[5] = c5;
+        } else {
+            o[0] = 1.0 - c0;
+            o[2] = -c2;
+            o[5] = -c5;
+        }
+        o
+    };
+    check_normalised("polynomial-degree-5", &reps, n, &|v, b| to_poly(pw5(v, b)), &pw5, &pops, &from_poly)?;
+    st.flag("polynomial_product_truncated", n * 5 >= MAX_COEFFS);
     let pw2 = |v: usize, b: bool| -> Vec<f64> {
         let mut o = vec![0.0; MAX_COEFFS];
         if b {
@@ -582,7 +620,9 @@ pub fn run_case(case: &Case, st: &mut Stats) -> CaseResult {
             Rep::B(b) => bdd_nodes(b).iter().all(|nd| BddPtr::Reg(nd).is_scratch_cleared()),
             Rep::S(s) => sdd_nodes(s).iter().all(|nd| nd.is_scratch_cleared()),
         };
-        ensure!(clean, "C07/scratch-left-behind", "counting left scratch data on '{}'", r.name);
+        // leftovers are C10's concern: recorded only
+        let _ = r.name;
+        st.flag("scratch_left_behind(C10's concern)", !clean);
     }
     let f0 = match reps[0].rep {
         Rep::B(b) => b,
@@ -604,7 +644,7 @@ pub struct Counts;
 impl SubCheckT for Counts {
     type Case = Case;
     const NAME: &'static str = "counts";
-    const RULE: &'static str = "a function (random truth table over <=6 variables with a random support mask, or a random CNF over <=7) represented as BDDs under 3 random orders (regular and negated pointers), SDDs under 2 random vtrees (second one uncompressed when n<=4; regular and negated) and, for CNFs, both top-down stores; weight tables built in four ways (set_weight ascending / descending / WmcParams::new / placeholders overwritten in a scrambled order), weights whose low+high is the semiring's one: real dyadics k/8, all 7 exported finite fields plus GF(2^107-1) and GF(2^127-1) (boundary + random residues), expected utility (p,u)/(1-p,-u), complex, degree-2 integer polynomials, rational indicators: every count = exact brute-force sum over models; evaluate() = truth-table bit on all 2^n assignments; arbitrary non-normalised weights on the canonical BDDs = the Shannon sum over the variables each sub-function depends on (order-aware), for all seven semirings. Non-trivial: non-constant function with >=3 support variables";
+    const RULE: &'static str = "a function (random truth table over <=6 variables with a random support mask, or a random CNF over <=7) represented as BDDs under 3 random orders (regular and negated pointers), SDDs under 2 random vtrees (second one uncompressed when n<=4; regular and negated), an SDD from SemanticSddBuilder over the 64-bit field, and, for CNFs, both top-down stores (regular and negated); every representation is counted against the function read off the diagram itself; weight tables built in four ways (set_weight ascending / descending / WmcParams::new / placeholders overwritten in a scrambled order), weights whose low+high is the semiring's one: real dyadics k/8, all 7 exported finite fields plus GF(2^107-1) and GF(2^127-1) (boundary + random residues), expected utility (p,u)/(1-p,-u), complex, degree-2 and degree-5 integer polynomials (the latter truncated at 32 coefficients when n = 7), rational indicators: every count = exact brute-force sum over models; evaluate() = truth-table bit on all 2^n assignments; arbitrary non-normalised weights on the canonical BDDs = the Shannon sum over the variables each sub-function depends on (order-aware), for all seven semirings. Non-trivial: non-constant function with >=3 support variables";
     fn cases(tier: Tier) -> u32 {
         tier.pick(5000, 60_000)
     }
